@@ -526,7 +526,12 @@ func Run(opt Options, own, used []*Module, all []*Module) *RunResult {
 				o.Raw = "no normal exit of the function is compatible with the cover condition: a documented success now faults (or the contract became contradictory)"
 			} else {
 				status = "discharged"
-				o.Detail, o.Model, o.Raw = "", nil, ""
+				o.Detail, o.Model, o.Raw = "reachable: not refuted (solver gave up on a witness)", nil, ""
+				for _, j := range js {
+					if j.res.Status == "sat" {
+						o.Detail = "reachable: witness found"
+					}
+				}
 			}
 		}
 		if o.Kind == "canary" || o.Kind == "axioms" {
